@@ -106,15 +106,23 @@ Definition op_key (o : op) : key :=
   | OEntry k | OInsert k _ _ | OAdd k _ _ | OConnected k _ | ODialFailure k _ | ODisconnected k => k
   end.
 
-(* add_known_peer on an Occupied entry (repaired code, fix F-C14b): hearing of a peer again with
-   NotConnected does not take Connected away; every other combination overwrites *)
+(* add_known_peer on an Occupied entry (repaired code, fixes F-C14b and F-C14c): hearing of a peer
+   again, with whatever connection type, does not take Connected away (only disconnect does);
+   every other entry is overwritten *)
 Definition add_conn (old new : conn) : conn :=
+  match old with
+  | Connected => Connected
+  | _ => new
+  end.
+(* before the repair: entry.connection = connection *)
+Definition add_conn_orig (old new : conn) : conn := new.
+(* after the first repair (F-C14b) only: NotConnected did not overwrite Connected, CanConnect and
+   CannotConnect still did (F-C14c) *)
+Definition add_conn_b (old new : conn) : conn :=
   match old, new with
   | Connected, NotConnected => Connected
   | _, _ => new
   end.
-(* before the repair: entry.connection = connection *)
-Definition add_conn_orig (old new : conn) : conn := new.
 
 (* what the operation does with the slot it obtained; ac = the rule of add_known_peer above *)
 Definition apply_slot_gen (ac : conn -> conn -> conn) (o : op) (b : list node) (s : slot)
@@ -316,3 +324,74 @@ Definition kad_empty (L : nat) : kad := mkKad (empty_table L) [].
    closest(hash(target), replication_factor) back verbatim *)
 Definition reply (local : key) (s : kad) (tgt : key) (k : nat) : list node :=
   closest local (k_table s) tgt k.
+
+(* ---- ground truth of connectedness ----
+
+   The table is judged against what its callers told it, not against the flag it stores: a peer
+   is CONNECTED after a history iff some operation stated so while (or by which) the table held
+   the peer — on_connection_established on a stored peer, add_known_peer(.., Connected) that left
+   the peer stored, insert(.., Connected) through a Vacant slot — and no disconnect for that peer
+   came later.  on_dial_failure, entry(), add_known_peer with any other connection type and the
+   content of the table never revoke it.  `ghost` is that set as a function of the history. *)
+
+Definition stored_in (local : key) (t : table) (k : key) : bool :=
+  match ilog2 (kxor local k) with
+  | Some i => existsb (has_key k) (nth i t [])
+  | None => false
+  end.
+
+Definition claims_connected (o : op) (code : nat) : bool :=
+  match o with
+  | OConnected _ _ => true
+  | OAdd _ true Connected => true
+  | OInsert _ _ Connected => Nat.eqb code 2      (* insert writes only through a Vacant slot *)
+  | _ => false
+  end.
+
+(* t / t' = the table before / after the operation, code = its outcome code.  A claim counts
+   when the peer is stored before or after it (on the model "before" implies "after"; for an
+   observed trace the disjunction makes losing the peer at the very claim a violation too) *)
+Definition gt_step (local : key) (t t' : table) (code : nat) (g : list key) (o : op) : list key :=
+  match o with
+  | ODisconnected k => del_peer g k
+  | _ => if claims_connected o code &&
+            (stored_in local t (op_key o) || stored_in local t' (op_key o))
+         then add_peer g (op_key o) else g
+  end.
+
+Fixpoint grun (local : key) (K : nat) (t : table) (g : list key) (h : list op)
+  : table * list key :=
+  match h with
+  | [] => (t, g)
+  | o :: h' =>
+      let r := step local K t o in
+      grun local K (fst r) (gt_step local t (fst r) (snd (snd r)) g o) h'
+  end.
+
+Definition ghost (local : key) (K : nat) (h : list op) : list key :=
+  snd (grun local K (empty_table (length local)) [] h).
+
+(* a glue operation as the table operations it performs (ps = the PeerContext set before it) *)
+Definition kop_ops (local : key) (ps : list key) (o : kop) : list op :=
+  match o with
+  | KAddKnown p a => [OAdd p a (believed ps p)]
+  | KEstablished p dialer _ => [OConnected p dialer]
+  | KDisconnect p => [ODisconnected p]
+  | KTouch _ => []
+  | KUpdate l =>
+      flat_map (fun pa : key * bool =>
+                  if key_eqb (fst pa) local then [] else [OAdd (fst pa) (snd pa) (believed ps (fst pa))]) l
+  | KDialFailure p a => [ODialFailure p a]
+  | KEntry p => [OEntry p]
+  end.
+
+Fixpoint kflat (local : key) (K : nat) (s : kad) (h : list kop) : list op :=
+  match h with
+  | [] => []
+  | o :: h' => kop_ops local (k_peers s) o ++ kflat local K (kstep local K s o) h'
+  end.
+
+(* ground truth along a glue history: connection established (peer stored), update with a
+   PeerContext, until disconnect_peer *)
+Definition kghost (local : key) (K : nat) (h : list kop) : list key :=
+  ghost local K (kflat local K (kad_empty (length local)) h).
